@@ -140,8 +140,8 @@ def raiseName : Raise → String
 def setJson (r : Except Raise SetResult) : Json :=
   match r with
   | .error e => obj [("exc", Json.str (raiseName e)), ("flag", Json.null), ("value", Json.null),
-                     ("u", Json.null), ("signals", Json.null)]
-  | .ok r => obj [("exc", Json.null), ("flag", Json.bool r.flag), ("value", ofNative r.st.value),
+                     ("u", Json.null), ("raw", Json.null), ("signals", Json.null)]
+  | .ok r => obj [("exc", Json.null), ("flag", Json.bool r.flag), ("value", ofNative r.st.value), ("raw", ofNative r.st.raw),
                   ("u", ofText r.st.u), ("signals", ofList Json.bool r.signals)]
 
 def envOf (j : Json) : Except String Env := do
